@@ -9,6 +9,8 @@ import (
 	"go/types"
 	"math/big"
 	"strings"
+
+	"golang.org/x/tools/go/ssa"
 )
 
 type Env struct {
@@ -808,6 +810,49 @@ func (e *Env) evalCall(n *ECall) Val {
 			return boolVal("false")
 		}
 		return boolVal(and(not(eq(m.S, "0")), vc.mapHas(e.st, m, k)))
+	case "callarg":
+		// callarg(name, n, i): i-th argument (receiver first) of the n-th call named `name`
+		if len(n.Args) != 3 || vc.fn == nil || vc.callByName == nil {
+			sfail("callarg(name, n, i)")
+		}
+		nm := ""
+		switch a := n.Args[0].(type) {
+		case *EIdent:
+			nm = a.Name
+		case *ESel:
+			if pk, ok := a.X.(*EIdent); ok {
+				nm = pk.Name + "." + a.Name
+			}
+		}
+		kn, ok1 := n.Args[1].(*EInt)
+		ki, ok2 := n.Args[2].(*EInt)
+		if nm == "" || !ok1 || !ok2 {
+			sfail("callarg(name, n, i)")
+		}
+		in, found := vc.callByName[fmt.Sprintf("%s#%d", nm, kn.V.Int64())]
+		if !found {
+			sfail("callarg: no call %s#%d in %s", nm, kn.V.Int64(), vc.key)
+		}
+		cc := in.(*ssa.Call).Common()
+		var ops []ssa.Value
+		if cc.IsInvoke() {
+			ops = append(ops, cc.Value)
+		}
+		ops = append(ops, cc.Args...)
+		if int(ki.V.Int64()) >= len(ops) {
+			sfail("callarg: call %s#%d has %d arguments", nm, kn.V.Int64(), len(ops))
+		}
+		op := ops[ki.V.Int64()]
+		if _, isConst := op.(*ssa.Const); !isConst {
+			if _, known := vc.vals[op]; !known {
+				v := vc.freshValNoAssume(op.Type(), "notcalled.arg")
+				vc.vals[op] = v
+				return v
+			}
+		}
+		v := vc.value(op)
+		v.T = op.Type()
+		return v
 	case "callres":
 		// callres(name, n): result of the n-th call named `name` in this function
 		if len(n.Args) != 2 {
